@@ -16,7 +16,11 @@ impl Str {
     pub fn is_lit_(&self, l: &Str) -> (r: bool) ensures r == (self@ == l@), l@.len() == 0 ==> r == (self@.len() == 0) { unimplemented!() }
     #[verifier::external_body]
     pub fn clone(&self) -> (r: Str) ensures r@ == self@ { unimplemented!() }
+    // str::trim(): some sub-slice, never longer than the string (which characters count as whitespace is not modelled)
+    #[verifier::external_body]
+    pub fn trim(&self) -> (r: &Str) ensures r@ == str_trim(self@), str_trim(self@).len() <= self@.len() { unimplemented!() }
 }
+pub uninterp spec fn str_trim(s: Seq<char>) -> Seq<char>;
 // a string literal
 #[verifier::external_body]
 pub fn vx_lit(s: &'static str) -> (r: &'static Str) ensures r@ == s@ { unimplemented!() }
